@@ -402,7 +402,7 @@ def _accumulate_shape(body, x):
   return None
 
 
-def loops_to_comprehensions(fn) -> int:
+def loops_to_comprehensions(fn, accumulate: bool = False) -> int:
   """`x = []; for t in it: [if c:] x.append(e)` -> `x = [e for t in it if c]`
   (and the set / dict forms), when the loop variables are not read after the
   loop and the element expression does not read the accumulator."""
@@ -432,6 +432,12 @@ def loops_to_comprehensions(fn) -> int:
           val.func, ast.Name) and not val.args and not val.keywords and (
               val.func.id in ('list', 'dict', 'set')):
         kind0 = val.func.id
+      acc_init = None
+      if kind0 is None and accumulate and isinstance(val, ast.Call):
+        # analysis-only form (not source-equivalent in general): an object
+        # created by a call and then filled key by key is written
+        # __accumulate__(<the call>, {k: v for ...})
+        kind0, acc_init = 'dict', val
       if kind0 is None:
         continue
       shape = _accumulate_shape(loop.body, tgt)
@@ -444,11 +450,31 @@ def loops_to_comprehensions(fn) -> int:
         continue
       loop_names = {y.id for y in ast.walk(loop.target)
                     if isinstance(y, ast.Name)}
-      leak = False
-      for y in _walk_own(fn):
-        if isinstance(y, ast.Name) and y.id in loop_names and not any(
-            y is z for z in ast.walk(loop)):
-          leak = True
+      # a later read of a loop variable would see its last value; reads
+      # inside another loop / comprehension that binds the name itself do not
+      inside = {id(z) for z in ast.walk(loop)}
+      rebound = set()
+      for o in _walk_own(fn):
+        if o is loop:
+          continue
+        if isinstance(o, (ast.For, ast.AsyncFor)):
+          names_o = {t.id for t in ast.walk(o.target)
+                     if isinstance(t, ast.Name)}
+          for b in o.body:
+            for z in ast.walk(b):
+              if isinstance(z, ast.Name) and z.id in names_o:
+                rebound.add(id(z))
+          for z in ast.walk(o.target):
+            rebound.add(id(z))
+        elif isinstance(o, _COMPS):
+          names_o = {t.id for g_ in o.generators for t in ast.walk(g_.target)
+                     if isinstance(t, ast.Name)}
+          for z in ast.walk(o):
+            if isinstance(z, ast.Name) and z.id in names_o:
+              rebound.add(id(z))
+      leak = any(isinstance(y, ast.Name) and y.id in loop_names and
+                 id(y) not in inside and id(y) not in rebound
+                 for y in _walk_own(fn))
       if leak:
         continue
       gen = ast.comprehension(target=loop.target, iter=loop.iter, ifs=conds,
@@ -459,6 +485,9 @@ def loops_to_comprehensions(fn) -> int:
         comp = ast.SetComp(elt=payload, generators=[gen])
       else:
         comp = ast.DictComp(key=payload[0], value=payload[1], generators=[gen])
+      if acc_init is not None:
+        comp = ast.Call(func=ast.Name(id='__accumulate__', ctx=ast.Load()),
+                        args=[acc_init, comp], keywords=[])
       new = ast.Assign(targets=[ast.Name(id=tgt, ctx=ast.Store())], value=comp)
       ast.copy_location(new, loop)
       block[i - 1:i + 1] = [new]
